@@ -11,7 +11,7 @@ func init() {
 		"log severity numbers outside 0..24 may arrive unchanged or as 0; an all-zero ID on the wire equals an absent one; the log record's trace flags byte is part of its trace context",
 		"metrics the OTLP transform documents as untransformable (undefined / out-of-range temporality, nil or unknown aggregation) must make Export return an error on both transports while the valid metrics of the batch still arrive and both payloads stay equal (documented best-effort upload)",
 		"zipkin: names compared case-insensitively, trace IDs as 128-bit numbers; domain restricted to start >= 1 s after the epoch, End >= Start, below year 2262 minus 1 ms (the Zipkin model rejects the rest)",
-		"domain: valid UTF-8 strings, no INVALID attribute values, non-empty keys, valid span/trace IDs for the span itself, cumulative or delta temporality; resources of a batch are distinct by attributes",
+		"domain: valid UTF-8 strings, no INVALID attribute values, attribute keys incl. duplicates and the empty key (expected = what the public accessors of the object handed to the exporter report), valid span/trace IDs for the span itself, cumulative or delta temporality; resources of a batch are distinct by attributes",
 		"concurrent sub-check (one exporter, 2..6 goroutines): concurrent export is explicitly permitted only for traces (otlptrace.Client.UploadTraces 'May be called concurrently'); sdk/metric.Exporter.Export has 'no concurrency safety requirement' (the OTLP metric exporters serialise uploads themselves) and sdk/log.Exporter says 'Export should never be called concurrently with other Export calls' - so metrics and logs are NOT exercised concurrently (switch: concurrentAsserted in c13/conc_test.go); zipkin is not exercised concurrently; not run under the race detector (the package takes 8x longer with -race), so only corruption that reaches the collector is seen",
 		"the gRPC and HTTP exporters are exercised over loopback TCP with and without gzip; collectors and exporters are created once per test process",
 	))
